@@ -1,6 +1,7 @@
 import TaskModel.Vars.Lemmas
 import TaskModel.Vars.Cli
 import TaskModel.Vars.CompileLemmas
+import TaskModel.Vars.EnvPipe
 import TaskModel.Gen.VarLayers
 import TaskModel.Gen.Load
 /-!
@@ -192,6 +193,109 @@ theorem C10_env_taskfile (osEnv globalEnv dotenv tenv : Env) (k : Name) (prec : 
   simp only [hp, if_true, List.not_mem_nil, if_false, taskEnv, List.lookup_append]
   cases tenv.lookup k <;> cases dotenv.lookup k <;> cases globalEnv.lookup k <;> simp
 
+private def shE : Shell := fun cmd _ _ => cmd
+
+/-! ## the environment clause over the real pipeline
+
+`taskEnv` / `commandEnv` above take the three maps as given.  In the code a global `env:`
+entry is templated TWICE — once as the lowest variable layer (what `{{.E}}` gives), once more
+in `compiledTask` over the FINAL variables of the task (what `$E` holds) — and task dotenv /
+task env entries take the second pass only (`Vars.EnvPipe`). -/
+
+theorem lookup_all_static (l : Defs) (h : l.all (fun p => isStatic p.2) = true) (k : Name) (d : VarDef)
+    (hk : l.lookup k = some d) : isStatic d = true := by
+  induction l with
+  | nil => simp at hk
+  | cons p r ih =>
+    obtain ⟨m, e⟩ := p
+    simp only [List.all_cons, Bool.and_eq_true] at h
+    simp only [List.lookup] at hk
+    split at hk
+    · cases hk; exact h.1
+    · exact ih h.2 hk
+
+theorem litVal_tplOver (final : Env) (d : VarDef) (h : isStatic d = true) :
+    litVal (tplOver final d) = valOver final d := by
+  cases d with
+  | lit ps => simp [tplOver, valOver, litVal, render]
+  | refv n => simp [tplOver, valOver, litVal, render]
+  | sh ps ov => simp [isStatic] at h
+
+/-- **C10 (environment, real pipeline).** For entries without `sh:`: a command finds under `k` the
+task `env:` entry rendered over the task's FINAL variables, else the task dotenv entry, else the
+global `env:` entry rendered — a second time — over those final variables, else the process
+value; provided the process environment does not set `k`, or the env-precedence experiment is on. -/
+theorem C10_env_pipeline (w : World) (final : Env) (genv dotenv tenv : Defs) (dir : Str) (c : Cache) (k : Name)
+    (hg : genv.all (fun p => isStatic p.2) = true) (hd : dotenv.all (fun p => isStatic p.2) = true)
+    (ht : tenv.all (fun p => isStatic p.2) = true)
+    (ng : (names genv).Nodup) (nd : (names dotenv).Nodup) (nt : (names tenv).Nodup)
+    (h : w.prec = true ∨ w.osEnv.lookup k = none) :
+    commandSees w (compiledEnv w final genv dotenv tenv dir c).1 k =
+      match tenv.lookup k with
+      | some d => some (valOver final d)
+      | none => match dotenv.lookup k with
+        | some d => some (valOver final d)
+        | none => match genv.lookup k with
+          | some d => some (valOver final d)
+          | none => w.osEnv.lookup k := by
+  have lg := allLit_replaceVarsOver final genv hg
+  have ld := allLit_replaceVarsOver final dotenv hd
+  have lt := allLit_replaceVarsOver final tenv ht
+  have l1 : allLit (mergeDefs [] (replaceVarsOver final genv)) = true := allLit_mergeDefs _ _ rfl lg
+  have l2 := allLit_mergeDefs _ _ l1 ld
+  have l3 : allLit (mergedEnvDefs final genv dotenv tenv) = true := allLit_mergeDefs _ _ l2 lt
+  have n0 : (names ([] : Defs)).Nodup := by simp [names]
+  have ng' : (names (replaceVarsOver final genv)).Nodup := by rw [names_replaceVarsOver]; exact ng
+  have nd' : (names (replaceVarsOver final dotenv)).Nodup := by rw [names_replaceVarsOver]; exact nd
+  have nt' : (names (replaceVarsOver final tenv)).Nodup := by rw [names_replaceVarsOver]; exact nt
+  have n1 := nodup_names_mergeDefs _ _ n0 ng'
+  have n2 := nodup_names_mergeDefs _ _ n1 nd'
+  have hm : (mergedEnvDefs final genv dotenv tenv).lookup k =
+      match tenv.lookup k with
+      | some d => some (tplOver final d)
+      | none => match dotenv.lookup k with
+        | some d => some (tplOver final d)
+        | none => (genv.lookup k).map (tplOver final) := by
+    simp only [mergedEnvDefs]
+    rw [lookup_mergeDefs _ _ n2 nt', lookup_mergeDefs _ _ n1 nd', lookup_mergeDefs _ _ n0 ng']
+    simp only [lookup_replaceVarsOver]
+    cases tenv.lookup k <;> cases dotenv.lookup k <;> cases genv.lookup k <;> simp
+  simp only [commandSees, compiledEnv, runEnvSh_allLit w dir _ _ c l3, commandEnv, List.lookup_append]
+  rw [lookup_filter_key _ (fun k => w.prec || (w.osEnv.lookup k).isNone), lookup_dedupKeys]
+  have hp : (w.prec || (w.osEnv.lookup k).isNone) = true := by
+    rcases h with h | h <;> simp [h]
+  simp only [hp, if_true, List.not_mem_nil, if_false, lookup_staticOf _ l3, hm]
+  cases htk : tenv.lookup k with
+  | some d => simp [litVal_tplOver final d (lookup_all_static tenv ht k d htk)]
+  | none =>
+    cases hdk : dotenv.lookup k with
+    | some d => simp [litVal_tplOver final d (lookup_all_static dotenv hd k d hdk)]
+    | none =>
+      cases hgk : genv.lookup k with
+      | some d => simp [litVal_tplOver final d (lookup_all_static genv hg k d hgk)]
+      | none => simp
+
+/-- the two passes over a global `env:` entry agree when every name its template refers to has, at the
+end, the value it had when the entry was rendered as a variable … -/
+theorem C10_env_two_passes_agree (atEntry final : Env) (ps : List Part)
+    (h : ∀ n, Part.ref n ∈ ps → get final n = get atEntry n) : render final ps = render atEntry ps := by
+  induction ps with
+  | nil => rfl
+  | cons p r ih =>
+    cases p with
+    | text t => simp only [render]; rw [ih (fun n hn => h n (List.mem_cons_of_mem _ hn))]
+    | ref n => simp only [render]; rw [h n List.mem_cons_self, ih (fun n hn => h n (List.mem_cons_of_mem _ hn))]
+
+/- … and differ otherwise: `env: {E: 'e-{{.V}}'}`, `vars: {V: x}` — `{{.E}}` is `e-` (the variable layer comes
+before the global vars), `$E` is `e-x`; a task-level `V` changes `$E` again, not `{{.E}}` -/
+example :
+    let w : World := ⟨shE, [], false⟩
+    let genv : Defs := [(0, .lit [.text [101, 45], .ref 1])]
+    let defs : Site → Defs := fun s => match s with
+      | .taskfileEnv => genv | .taskfileVars => [(1, .lit [.text [120]])] | .taskVars => [(1, .lit [.text [121]])] | _ => []
+    let final := (getVariables w ⟨[], [], 3⟩ [] (layersOf defs) []).env
+    (get final 0, commandSees w (compiledEnv w final genv [] [] [] []).1 0) = ([101, 45], some [101, 45, 121]) := by decide
+
 /-! ## non-vacuity -/
 private def sh0 : Shell := fun cmd dir _ => cmd ++ [64] ++ dir
 private def defs0 : Site → List (Name × VarDef)
@@ -200,7 +304,7 @@ private def defs0 : Site → List (Name × VarDef)
   | .callVars => [(2, .lit [.text [21], .ref 1])]
   | .taskVars => [(3, .sh [.text [5], .ref 2] none)]
   | _ => []
-example : let e := (getVariables ⟨sh0, []⟩ ⟨[1], [], 3⟩ [] (layersOf defs0) []).env
+example : let e := (getVariables ⟨sh0, [], false⟩ ⟨[1], [], 3⟩ [] (layersOf defs0) []).env
     (get e 1, get e 2, get e 3) = ([11], [21, 11], [5, 21, 11, 64, 1]) := by decide
 
 /-! ## `sh:` env entries see the Taskfile's env -/
@@ -302,8 +406,9 @@ private def shN : Shell := fun cmd _ _ => cmd
 `vars: {CHECKSUM: mine}` in a task with sources prints the hash -/
 theorem C10_special_unless_overridden_counterexample : ¬ C10_special_unless_overridden_full := by
   intro h
-  have := h ⟨shN, []⟩ [] { tc := tc0, genv := [], files := [⟨[], [], []⟩], level := 0, callVars := [],
-                           taskVars := [(nCHECKSUM, .lit [.text [109]])], fp := some (nCHECKSUM, [76]) }
+  have := h ⟨shN, [], false⟩ []
+    { tc := tc0, genv := [], files := [⟨[], [], []⟩], level := 0, callVars := [],
+      taskVars := [(nCHECKSUM, .lit [.text [109]])], fp := some (nCHECKSUM, [76]) }
     .taskVars [] [] nCHECKSUM [109] rfl (by decide) (by decide)
   revert this
   decide
@@ -321,7 +426,7 @@ a global that overrides TASK, ALIAS of a call through an alias -/
 private def tc1 : TaskCtx := { tc0 with rawDir := [123, 123, 46, 86, 125, 125], dirTpl := [.ref 6], alias := [97] }
 private def cd1 : CallDesc := { tc := tc1, genv := [], files := [⟨[], [], [(6, .lit [.text [115]]), (nTASK, .lit [.text [117]])]⟩],
                                 level := 0, callVars := [], taskVars := [(1, .sh [.text [75]] none)] }
-example : let r := compile ⟨shN, []⟩ [] cd1 []
+example : let r := compile ⟨shN, [], false⟩ [] cd1 []
     (get r.vars nTASK, get r.vars nTASK_DIR, get r.vars nALIAS, r.dir) =
       ([117], [47, 114, 47, 123, 123, 46, 86, 125, 125], [97], [47, 114, 47, 115]) := by decide
 
@@ -387,7 +492,7 @@ theorem C10_root_task_sees_included_global (w : World) (home : Str) (cd : CallDe
 the root task sees `from-a`, also through `R` (the overriding definition keeps the root's position) -/
 private def fRoot : FileDesc := ⟨[], [], [(0, .lit [.text [114]]), (1, .lit [.text [114, 45], .ref 0])]⟩
 private def fInc : FileDesc := ⟨[47, 114, 47, 97], [], [(0, .lit [.text [97]])]⟩
-example : let r := compile ⟨shN, []⟩ [] { tc := tc0, genv := [], files := [fRoot, fInc], level := 0, callVars := [], taskVars := [] } []
+example : let r := compile ⟨shN, [], false⟩ [] { tc := tc0, genv := [], files := [fRoot, fInc], level := 0, callVars := [], taskVars := [] } []
     (get r.vars 0, get r.vars 1) = ([97], [114, 45, 97]) := by decide
 
 /-! ## the command-line layer ("global vars (including NAME=value command-line assignments)")
@@ -458,12 +563,12 @@ theorem C10_cli_ref_iff (w : World) (dir : Str) (base : Env) (c : Cache) (dpre d
 /- non-vacuity: `vars: {Y: '{{.X}}'}` with `task t X=1` — Y sees nothing; with X also declared
 before Y it sees 1; declared after Y: nothing (but X itself is 1) -/
 private def shC : Shell := fun cmd _ _ => cmd
-example : get (evalBlock ⟨shC, []⟩ [] (taskfileVars [(1, .lit [.ref 0])] (cliLayer [(0, [.text [49]])] [] {})) [] []).1 1 = [] := by decide
-example : get (evalBlock ⟨shC, []⟩ [] (taskfileVars [(0, .lit [.text [100]]), (1, .lit [.ref 0])] (cliLayer [(0, [.text [49]])] [] {})) [] []).1 1 = [49] := by decide
-example : let e := (evalBlock ⟨shC, []⟩ [] (taskfileVars [(1, .lit [.ref 0]), (0, .lit [.text [100]])] (cliLayer [(0, [.text [49]])] [] {})) [] []).1
+example : get (evalBlock ⟨shC, [], false⟩ [] (taskfileVars [(1, .lit [.ref 0])] (cliLayer [(0, [.text [49]])] [] {})) [] []).1 1 = [] := by decide
+example : get (evalBlock ⟨shC, [], false⟩ [] (taskfileVars [(0, .lit [.text [100]]), (1, .lit [.ref 0])] (cliLayer [(0, [.text [49]])] [] {})) [] []).1 1 = [49] := by decide
+example : let e := (evalBlock ⟨shC, [], false⟩ [] (taskfileVars [(1, .lit [.ref 0]), (0, .lit [.text [100]])] (cliLayer [(0, [.text [49]])] [] {})) [] []).1
     (get e 1, get e 0) = ([], [49]) := by decide
 -- a global alias of CLI_ARGS is empty; a task-level reference (any later layer) sees it
-example : let e := (evalBlock ⟨shC, []⟩ [] (taskfileVars [(1, .lit [.ref nCLI_ARGS])] (cliLayer [] [97, 32, 98] {})) [] []).1
+example : let e := (evalBlock ⟨shC, [], false⟩ [] (taskfileVars [(1, .lit [.ref nCLI_ARGS])] (cliLayer [] [97, 32, 98] {})) [] []).1
     (get e 1, get e nCLI_ARGS) = ([], [97, 32, 98]) := by decide
 example : (names (cliLayer [(0, [.text [49]]), (5, []), (0, [.text [50]])] [] {})).Nodup ∧
     (cliLayer [(0, [.text [49]]), (5, []), (0, [.text [50]])] [] {}).lookup 0 = some (.lit [.text [50]]) := by decide
